@@ -20,6 +20,7 @@
 
 
 #include <string>
+#include <tuple>
 #include <vector>
 #include <boost/lexical_cast.hpp>
 
@@ -60,8 +61,11 @@ public:
    ///    The name of the attribute.
    /// @param[in]  attr_value
    ///    The value of the attribute.
+   /// @return
+   ///    An identification of the added attribute, can be used to remove
+   ///    exactly this attribute again with removeAttributeById().
    /// @since  1.15.0, 19.06.2016
-   void addAttribute( const std::string& attr_name, const std::string& attr_value);
+   size_t addAttribute( const std::string& attr_name, const std::string& attr_value);
 
    /// Adds an attribute with "any" type to the internal list of attributes.<br>
    /// The type of the attribute value must be convertible to string.
@@ -99,14 +103,25 @@ public:
    /// @since  1.15.0, 20.03.2018
    void removeAttribute( const std::string& attr_name);
 
+   /// Removes exactly the attribute for which addAttribute() returned the
+   /// given identification. Does nothing if this attribute does not exist
+   /// anymore.
+   ///
+   /// @param[in]  attr_id  The identification of the attribute to erase.
+   /// @since  01.10.2026
+   void removeAttributeById( size_t attr_id);
+
 private:
-   /// Value type stored in the internal container.
-   using attr_pair_t = std::pair< std::string, std::string>;
+   /// Value type stored in the internal container: name, value and the
+   /// identification of the entry.
+   using attr_pair_t = std::tuple< std::string, std::string, size_t>;
    /// Type of the internal container where the attributes are stored.
    using attr_cont_t = std::vector< attr_pair_t>;
 
    /// The container in which the attributes and their values are stored.
    attr_cont_t  mAttributes;
+   /// The identification for the next attribute that is added.
+   size_t       mNextAttrId = 1;
 
 }; // LogAttributesContainer
 
